@@ -1,6 +1,8 @@
 --------------------------- MODULE PointGroupAlgRec ---------------------------
 (* code -> spec: records of calls of the real PointSymmetry / PointGroup / Transform code (random generators, lattices,
-   tensors, k-points), one TLC state per record; every clause of C09 that applies is evaluated on the recorded values.
+   tensors, k-points, space groups of irrep, Rotation / Mirror objects), one TLC state per record; every clause of C09
+   that applies is evaluated on the recorded values.  Lists of group elements are compared as SETS (the property does
+   not fix the order in which PointGroup.symmetries lists the elements, nor which of two equivalent star points is kept).
    Matrices are in the frame of the family (see PointGroupAlg), tensors are frame components, k-points numerators. *)
 EXTENDS PointGroupAlg, Json, IOUtils, TLCExt
 VARIABLE i
@@ -15,27 +17,30 @@ Trans(t) == [factor |-> t.factor, conj |-> t.conj, axes |-> Seq1(t.axes)]
 LatOf(l) == [fam |-> l.fam, A |-> Mat(l.A)]
 Vec(v) == <<v[1], v[2], v[3]>>
 
+(* fn = "group": PointGroup(generators) (random generators, the operations of a space group, a subset of them) *)
 GroupClauses ==
    LET gen == [k \in 1..Len(Rec.gens) |-> PointSymmetry(Mat(Rec.gens[k].R), Rec.gens[k].TR)]
        G == Elems(Rec.out)  lat == LatOf(Rec.lat)
-       distinct == \A a, b \in 1..Len(gen) : a < b => ~Eq(gen[a], gen[b]) IN
-   [ equals_spec |-> G = Generate(gen),
+       GG == Generate(gen) IN                                   \* evaluated once per record
+   [ equals_spec |-> Len(G) = Len(GG) /\ SameSet(G, GG),
      closed |-> Closed(G),
      identity |-> HasIdentity(G),
      inverses |-> HasInverses(G),
      size |-> SizeBound(G),
-     no_duplicates |-> distinct => NoDuplicates(G),
+     no_duplicates |-> NoDuplicates(G),
      frame_isometry |-> FrameInvariant(G, lat.fam),
      basis_symmetry |-> Rec.symm = CheckBasisSymmetry(G, lat) /\ Rec.symmreal = CheckRealBasisSymmetry(G, lat),
-     lattice_invariant |-> Rec.symm => (LatticeInvariant(G, lat) /\ [n \in 1..Len(G) |-> Reduced(G[n].R, lat)] = [n \in 1..Len(Rec.W) |-> Mat(Rec.W[n])]) ]
+     lattice_invariant |-> Rec.symm => LatticeInvariant(G, lat),
+     \* transform_reduced_vector(eye, recip_lattice) of every element: rows = images of the basis vectors = sign * W^T
+     reduced_vectors |-> Rec.symm => \A n \in 1..Len(G) :
+                            Mat(Rec.TRV[n]) = MatScale(MatT(Reduced(G[n].R, lat)), iTR(G[n]) * iInv(G[n])) ]
 MulClauses ==
    [ equals_spec |-> Elem(Rec.out) = Mul(Elem(Rec.a), Elem(Rec.b)),
      element |-> IsElement(Elem(Rec.out)) ]
 StarClauses ==
    LET G == Elems(Rec.G)  lat == LatOf(Rec.lat)  st == [n \in 1..Len(Rec.out) |-> Vec(Rec.out[n])]  k == Vec(Rec.k) IN
-   [ equals_spec |-> st = Star(G, k, Rec.N, lat),
-     each_image_once |-> StarOnce(st, G, k, Rec.N, lat),
-     first_occurrences |-> StarFirstOccurrences(st, G, k, Rec.N, lat),
+   [ each_image_once |-> StarOnce(st, G, k, Rec.N, lat),
+     size_of_spec_star |-> Len(st) = Len(Star(G, k, Rec.N, lat)),
      divides_order |-> NoDuplicates(G) => Len(G) % Len(st) = 0 ]
 ActClauses ==
    [ equals_spec |-> Tens(Rec.out) = Act(Elem(Rec.g), Tens(Rec.T), Trans(Rec.tTR), Trans(Rec.tInv)) ]
@@ -44,6 +49,7 @@ ActLawClauses ==
    [ product |-> Elem(Rec.gh) = Mul(g, h),
      action_law |-> ValidPair(tTR, tInv) => Tens(Rec.out_g_h) = Tens(Rec.out_gh),
      equals_spec |-> Tens(Rec.out_gh) = Act(Mul(g, h), T, tTR, tInv) /\ Tens(Rec.out_g_h) = Act(g, Act(h, T, tTR, tInv), tTR, tInv) ]
+(* symmetrize_tensor / PointGroup.symmetrize(EnergyResult), times the group size *)
 SymmClauses ==
    LET G == Elems(Rec.G)  T == Tens(Rec.T)  tTR == Trans(Rec.tTR)  tInv == Trans(Rec.tInv)  S == Tens(Rec.out)
        ok == ValidPair(tTR, tInv) /\ Closed(G) /\ NoDuplicates(G) IN
@@ -54,14 +60,21 @@ SymmClauses ==
 GridClauses ==
    [ equals_spec |-> Rec.out = SymmetricGrid(Elems(Rec.G), LatOf(Rec.lat), Vec(Rec.nk)) ]
 DictClauses ==
-   LET G == Elems(Rec.G) IN
-   [ round_trip |-> Elems(Rec.out) = G,
-     equals_spec |-> Elems(Rec.out) = GroupFromDict(GroupAsDict(G)),
-     dict_entries |-> [n \in 1..Len(Rec.dict) |-> [R |-> Mat(Rec.dict[n].R), TR |-> Rec.dict[n].TR]] = GroupAsDict(G) ]
+   LET G == Elems(Rec.G)  D == Elems(Rec.out) IN
+   [ round_trip |-> Len(D) = Len(G) /\ SameSet(D, G) /\ NoDuplicates(D) ]
 TProdClauses ==
    LET ts == [k \in 1..Len(Rec.ts) |-> Trans(Rec.ts[k])] IN
    [ defined_iff |-> Rec.defined = TransformProductDefined(ts),
      equals_spec |-> Rec.defined => Trans(Rec.out) = TransformProduct(ts) ]
+(* fn = "rot": Rotation(n, axis) / Mirror(axis), axis = integer frame coordinates c *)
+RotClauses ==
+   LET g == Elem(Rec.out)  c == Vec(Rec.c)  n == IF Rec.mirror THEN 2 ELSE Rec.n IN
+   [ element |-> IsElement(g) /\ IsIsometry(g.R, Rec.fam) /\ ~g.tr,
+     improper_iff_mirror |-> g.inv = Rec.mirror,
+     fixes_axis |-> RotationFixesAxis(g.R, c),
+     order |-> RotationOrder(g.R, n),
+     sense |-> RotationSense(g.R, n, c),
+     named |-> Rec.name # "" => g = FromString(Rec.fam, Rec.name) ]
 Clauses == CASE Rec.fn = "group" -> GroupClauses
              [] Rec.fn = "mul" -> MulClauses
              [] Rec.fn = "star" -> StarClauses
@@ -71,6 +84,7 @@ Clauses == CASE Rec.fn = "group" -> GroupClauses
              [] Rec.fn = "grid" -> GridClauses
              [] Rec.fn = "dict" -> DictClauses
              [] Rec.fn = "tprod" -> TProdClauses
+             [] Rec.fn = "rot" -> RotClauses
 Report == \A n \in DOMAIN Clauses : Clauses[n] \/ PrintT(<<"BAD", i, n>>)
 RecInit == i \in 1..Len(Recs)
 RecSpec == RecInit /\ [][UNCHANGED i]_i
